@@ -299,6 +299,9 @@ class TraitList(list):
             The modified list.
         """
 
+        # Like list, accept any integer-like multiplier.
+        value = operator.index(value)
+
         if value < 1:
             removed = self.copy()
             multiplied = super().__imul__(value)
@@ -398,6 +401,9 @@ class TraitList(list):
             The object to insert.
         """
 
+        # Like list, accept any integer-like index.
+        index = operator.index(index)
+
         # For insert, *any* index is valid!
         if index < 0:
             normalized_index = max(index + len(self), 0)
@@ -426,6 +432,9 @@ class TraitList(list):
         IndexError
             If list is empty or index is out of range.
         """
+
+        # Like list, accept any integer-like index.
+        index = operator.index(index)
 
         # We don't need to worry about indices < -len(self) or >= len(self):
         # for those, the pop call will raise anyway.
